@@ -113,11 +113,8 @@ theorem atomEq_comm (a b : Val) : atomEq a b = atomEq b a := by
 
 /-! ### `defEq` IS the comparison against the materialised default, on either side -/
 
-/-- the raw slot of a fresh instance -/
-def freshSlot (f : FieldD) : Val := if f.optional then Val.none else Val.ph
-
 theorem fresh_slots (S : Schema) (c : Nat) :
-    fresh S c = .msg c ((fieldsOf S c).map freshSlot) false [] (List.replicate (groupsOf S c) Option.none) := rfl
+    fresh S c = .msg c ((fieldsOf S c).map freshVal) false [] (List.replicate (groupsOf S c) Option.none) := rfl
 
 /-- one iteration of `slotsDef` -/
 def slotDefB (S : Schema) (f : FieldD) (v : Val) : Bool :=
@@ -153,21 +150,21 @@ theorem atomDefEq_none (k : DefKind) : atomDefEq k .none = (k == .none) := by
 
 theorem valEq_none_right (S : Schema) (a : Val) : valEq S a .none = atomEq a .none := valEq_atom_right S a .none rfl
 
-theorem slotEqB_fresh_right (S : Schema) (f : FieldD) (a : Val) : slotEqB S f a (freshSlot f) = slotDefB S f a := by
-  unfold slotEqB slotDefB freshSlot
+theorem slotEqB_fresh_right (S : Schema) (f : FieldD) (a : Val) : slotEqB S f a (freshVal f) = slotDefB S f a := by
+  unfold slotEqB slotDefB freshVal
   cases ho : f.optional
   · simp only [Bool.false_eq_true, if_false]
-    cases a <;> first | rfl | (simp only; rw [defEq])
+    cases a <;> rfl
   · simp only [if_true]
-    cases a <;> simp only <;> first | (rw [defEq]; done) | (rw [valEq_none_right]; rfl)
+    cases a <;> simp only <;> first | rw [defEq] | (rw [valEq_none_right]; rfl)
 
-theorem slotEqB_fresh_left (S : Schema) (f : FieldD) (b : Val) : slotEqB S f (freshSlot f) b = slotDefB S f b := by
-  unfold slotEqB slotDefB freshSlot
+theorem slotEqB_fresh_left (S : Schema) (f : FieldD) (b : Val) : slotEqB S f (freshVal f) b = slotDefB S f b := by
+  unfold slotEqB slotDefB freshVal
   cases ho : f.optional
   · simp only [Bool.false_eq_true, if_false]
-    cases b <;> first | rfl | (simp only; rw [defEq])
+    cases b <;> rfl
   · simp only [if_true]
-    cases b <;> simp only <;> first | (rw [defEq]; done) | (rw [valEq]; rfl)
+    cases b <;> simp only <;> first | rw [defEq] | (rw [valEq]; rfl)
 
 theorem slotsEq_nil_left (S : Schema) (fs : List FieldD) (bs : List Val) : slotsEq S fs [] bs = true := by
   rw [slotsEq]; all_goals (intros; contradiction)
@@ -185,14 +182,14 @@ theorem slotsDef_nil (S : Schema) (fs : List FieldD) : slotsDef S fs [] = true :
   rw [slotsDef]; all_goals (intros; contradiction)
 
 theorem slotsEq_fresh_right (S : Schema) : ∀ (fs : List FieldD) (sl : List Val),
-    slotsEq S fs sl (fs.map freshSlot) = slotsDef S fs sl
+    slotsEq S fs sl (fs.map freshVal) = slotsDef S fs sl
   | [], sl => by rw [slotsEq_nil_fields, slotsDef_nil_fields]
   | f :: fs, [] => by rw [slotsEq_nil_left, slotsDef_nil]
   | f :: fs, a :: as => by
     rw [List.map_cons, slotsEq_cons, slotsDef_cons, slotEqB_fresh_right, slotsEq_fresh_right S fs as]
 
 theorem slotsEq_fresh_left (S : Schema) : ∀ (fs : List FieldD) (sl : List Val),
-    slotsEq S fs (fs.map freshSlot) sl = slotsDef S fs sl
+    slotsEq S fs (fs.map freshVal) sl = slotsDef S fs sl
   | [], sl => by rw [slotsEq_nil_fields, slotsDef_nil_fields]
   | f :: fs, [] => by rw [slotsEq_nil_right, slotsDef_nil]
   | f :: fs, a :: as => by
@@ -949,4 +946,133 @@ theorem slots_default (S : Schema) : ∀ (vs : List Val) (fs : List FieldD) (cur
 termination_by structural vs => vs
 end
 
+/-! ### the containment -/
+
+theorem valEqv_ph_right (S : Schema) (a : Val) (h : ValEqv S a .ph) : a = .ph := by
+  cases h; rfl
+
+mutual
+theorem valEqv_valEq (S : Schema) : ∀ (a b : Val), DeepOk S a → ValEqv S a b →
+    valEq S a b = true ∧ valEq S b a = true
+  | .msg c sl ow unk cur, b, hd, h => by
+    have hm : MsgOk S (.msg c sl ow unk cur) := by rw [DeepOk] at hd; exact hd
+    obtain ⟨d, hdd, hT⟩ := msgOk_slotsT S c sl ow unk cur hm
+    have hfo := fieldsOf_eq S c d hdd
+    cases h with
+    | refl => exact ⟨valEq_refl S _ hd, valEq_refl S _ hd⟩
+    | emptyMsg _ _ _ _ _ hdump =>
+      rw [dumpVal] at hdump
+      obtain ⟨body, hbody, hdump⟩ := bind_eq_ok _ _ _ hdump
+      injection hdump with hdump
+      have hb : body = [] := (List.append_eq_nil_iff.1 hdump).1
+      subst hb
+      rw [hfo] at hbody
+      have hs := slots_default S sl d.fields cur 0 hT (Or.inl hbody)
+      have e : fresh S c = defaultOfKind S (.msg c) := rfl
+      rw [e, valEq_default_right, valEq_default_left, defEq, hfo]
+      simpa using hs
+    | msg _ _ sl' _ _ _ hs =>
+      rw [hfo] at hs
+      have := slotsEqv_slotsEq S sl sl' d.fields cur 0 hT hs
+      rw [valEq_msg_msg, valEq_msg_msg, hfo]
+      simpa using this
+  | .list xs, b, hd, h => by
+    cases h with
+    | refl => exact ⟨valEq_refl S _ hd, valEq_refl S _ hd⟩
+    | list _ ys hl =>
+      rw [DeepOk] at hd
+      rw [valEq_list_list, valEq_list_list]
+      exact listEqv_listEq S xs ys hd hl
+  | .dict ks vs, b, hd, h => by
+    cases h with
+    | refl => exact ⟨valEq_refl S _ hd, valEq_refl S _ hd⟩
+    | dict _ _ vs' hl =>
+      rw [DeepOk] at hd
+      obtain ⟨h1, h2⟩ := listEqv_listEq S vs vs' hd.2.2.2 hl
+      have hlen := listEq_length S vs vs' h1
+      exact ⟨valEq_dict_same_keys S ks vs vs' hd.1 hd.2.1 hd.2.2.1 h1,
+        valEq_dict_same_keys S ks vs' vs (by rw [← hlen]; exact hd.1) hd.2.1 hd.2.2.1 h2⟩
+  | .f32 x, b, hd, h => by
+    cases h with
+    | refl => exact ⟨valEq_refl S _ hd, valEq_refl S _ hd⟩
+    | negZero32 => exact ⟨by rw [valEq]; decide, by rw [valEq]; decide⟩
+  | .f64 x, b, hd, h => by
+    cases h with
+    | refl => exact ⟨valEq_refl S _ hd, valEq_refl S _ hd⟩
+    | negZero64 => exact ⟨by rw [valEq]; decide, by rw [valEq]; decide⟩
+  | .ph, b, hd, h | .none, b, hd, h | .int _, b, hd, h | .bool _, b, hd, h | .str _, b, hd, h | .byt _, b, hd, h
+  | .ts _, b, hd, h | .dur _, b, hd, h => by
+    cases h
+    exact ⟨valEq_refl S _ hd, valEq_refl S _ hd⟩
+termination_by structural a => a
+
+theorem listEqv_listEq (S : Schema) : ∀ (xs ys : List Val), DeepOkL S xs → ListEqv S xs ys →
+    listEq S xs ys = true ∧ listEq S ys xs = true
+  | [], ys, _, h => by cases h; exact ⟨by rw [listEq], by rw [listEq]⟩
+  | x :: xs, ys, hd, h => by
+    rw [DeepOkL] at hd
+    cases h with
+    | cons _ y _ ys' hv hl =>
+      obtain ⟨a1, a2⟩ := valEqv_valEq S x y hd.1 hv
+      obtain ⟨b1, b2⟩ := listEqv_listEq S xs ys' hd.2 hl
+      rw [listEq_cons, listEq_cons, a1, a2, b1, b2]
+      exact ⟨rfl, rfl⟩
+termination_by structural xs => xs
+
+theorem slotsEqv_slotsEq (S : Schema) : ∀ (vs vs' : List Val) (fs : List FieldD) (cur : List (Option Nat)) (k : Nat),
+    SlotsT S fs cur k vs → SlotsEqv S fs cur k vs vs' →
+    slotsEq S (fs.drop k) vs vs' = true ∧ slotsEq S (fs.drop k) vs' vs = true
+  | [], vs', fs, cur, k, _, h => by
+    cases h
+    exact ⟨slotsEq_nil_left S _ _, slotsEq_nil_left S _ _⟩
+  | v :: vs, vs', fs, cur, k, hT, h => by
+    obtain ⟨⟨f, hf, hv, hh⟩, hrest⟩ := hT
+    rw [drop_cons_of_get fs k f hf]
+    cases h with
+    | consEqv _ _ _ _ v' _ vs'' hvv hr =>
+      obtain ⟨r1, r2⟩ := slotsEqv_slotsEq S vs vs'' fs cur (k + 1) hrest hr
+      rw [slotsEq_cons, slotsEq_cons, r1, r2, Bool.and_true, Bool.and_true]
+      by_cases hp : v = .ph
+      · subst hp
+        cases hvv
+        exact ⟨rfl, rfl⟩
+      · have hp' : v' ≠ .ph := by
+          intro e; subst e
+          exact hp (valEqv_ph_right S v hvv)
+        rw [slotEqB_set S f v v' hp hp', slotEqB_set S f v' v hp' hp]
+        exact valEqv_valEq S v v' (slotOk_deepOk S f v hv) hvv
+    | consFresh _ _ _ _ v' _ vs'' f' hf' hv' hdump hr =>
+      obtain ⟨r1, r2⟩ := slotsEqv_slotsEq S vs vs'' fs cur (k + 1) hrest hr
+      have ef : f' = f := by rw [hf] at hf'; injection hf' with e; exact e.symm
+      subst ef
+      subst hv'
+      have hsd := slot_default S v f' _ _ hv hh (Or.inl hdump)
+      rw [slotsEq_cons, slotsEq_cons, r1, r2, slotEqB_fresh_right, slotEqB_fresh_left, hsd]
+      exact ⟨rfl, rfl⟩
+termination_by structural vs => vs
+end
+
+/-- **`ValEqv` is contained in `==`**: a well-typed message and anything `ValEqv`-related to it
+    (in particular what `parse(bytes(m))` returns) are equal under `Message.__eq__`, in both
+    orders.  Nothing is assumed about `m'`. -/
+theorem valEqv_msgEq (S : Schema) (m m' : Val) (hm : MsgOk S m) (h : ValEqv S m m') :
+    msgEq S m m' = true ∧ msgEq S m' m = true := by
+  cases hm with
+  | mk c d sl ow unk cur hd h1 h2 h3 h4 h5 h6 h7 h8 h9 =>
+    have hmm : MsgOk S (.msg c sl ow unk cur) := MsgOk.mk c d sl ow unk cur hd h1 h2 h3 h4 h5 h6 h7 h8 h9
+    have hd' : DeepOk S (.msg c sl ow unk cur) := by rw [DeepOk]; exact hmm
+    obtain ⟨e1, e2⟩ := valEqv_valEq S _ m' hd' h
+    have hmsg : isMsgVal m' = true := by
+      cases h with
+      | refl => rfl
+      | emptyMsg => rfl
+      | msg => rfl
+    unfold msgEq
+    rw [e1, e2, hmsg]
+    exact ⟨rfl, rfl⟩
+
 end Bp
+
+#print axioms Bp.valEqv_msgEq
+#print axioms Bp.valEq_default_right
+#print axioms Bp.valEq_default_left
